@@ -10,13 +10,6 @@ Import ListNotations.
 Close Scope Q_scope.
 Open Scope R_scope.
 
-(** REFUTED at the upper end point, over R as well (finding tsat:upper-endpoint is not a rounding
-    effect): with the coefficients of the source sat(tcritical) > pcritical, so tsat returns None *)
-Theorem tsat_upper_endpoint_refuted_over_R :
-  exists p, runsR sat_traced [Q2R tcritical_Q] n4 (RRet [p]) /\ Q2R pcritical_Q < p /\ runsR tsat_traced [p] n4 RNone.
-Proof. exact tsat_upper_endpoint_fails_over_R_proof. Qed.
-Print Assumptions tsat_upper_endpoint_refuted_over_R.
-
 (** the other composition: the whole closed pressure interval, both end points included *)
 Theorem sat_tsat_inverse : forall p : R, Q2R p_611_213_Q <= p <= Q2R pcritical_Q ->
   exists t, runsR tsat_traced [p] n4 (RRet [t]) /\ runsR sat_traced [t] n4 (RRet [p]).
